@@ -207,7 +207,8 @@ def run(res, tier, seed, shard, nshards):
     # (d) tunnel through the simulated network ------------------------------------
     def scen():
         replies = ["200", "200-lower", "201", "204", "301", "407", "403", "404", "500", "503", "garbage", "eof", "200-extra-headers"]
-        creds = [None, ("user", "pass"), ("üser", "pässwörd"), ("user", None)]
+        creds = [None, ("user", "pass"), ("üser", "pässwörd"), ("user", None),
+                 ("firstname.lastname@example-corporation.test", "tok_" + "A1b2C3d4" * 9), ("u" * 28, "p" * 29), ("u" * 28, "p" * 28)]
         idx = 0
         for reply in replies:
             for secure in (False, True):
@@ -217,6 +218,10 @@ def run(res, tier, seed, shard, nshards):
                         if idx % nshards != shard:
                             continue
                         tunnel_case(res, W, rng, reply, secure, cred, via)
+        # redirects: the proxy decision is taken per hop
+        if shard == 1 % nshards:
+            for variant in ("exempt-then-proxied", "proxied-then-exempt", "ws-env-then-wss", "wss-env-then-ws"):
+                redirect_hops_case(res, W, variant)
         # direct connection when exempt: no CONNECT, origin dialled
         if shard == 0:
             tunnel_case(res, W, rng, "200", False, None, "option", exempt=True)
@@ -369,3 +374,83 @@ def tunnel_case(res, W, rng, reply, secure, cred, via, exempt=False):
             if not pconn.client_closed:
                 bad("proxy-transport-leaked", f"reply {reply}", reply=reply)
     res.sample(case, cap=3)
+
+
+def redirect_hops_case(res, W, variant):
+    """hop 1 answers 302 to a second origin; each hop's route (direct / through the proxy) follows from its own
+    host and scheme"""
+    H.reset_process_state()
+    H.scrub_env()
+    log = []  # (who, first line)
+
+    def proxy_conn(conn):
+        buf = bytearray()
+        inner = {"peer": None}
+
+        def data(c, d):
+            if inner["peer"] is not None:
+                inner["peer"]._data(c, d)
+                return
+            buf.extend(d)
+            i = buf.find(b"\r\n\r\n")
+            if i < 0:
+                return
+            line = bytes(buf[:i]).split(b"\r\n")[0].decode()
+            log.append(("proxy", line))
+            rest = bytes(buf[i + 4:])
+            c.deliver(b"HTTP/1.1 200 Connection established\r\n\r\n")
+            target = line.split(" ")[1]
+            inner["peer"] = H.HandshakePeer(c, response=origin_response(target.split(":")[0]))
+            if rest:
+                inner["peer"]._data(c, rest)
+        conn.on_client_data = data
+
+    def origin_response(hostname):
+        def resp(req):
+            key = H.request_key(req) or ""
+            if hostname == "first.test":
+                return f"HTTP/1.1 302 Found\r\nLocation: {second_url}\r\n\r\n".encode()
+            return H.response_101(key)
+        return resp
+
+    def origin_conn(conn):
+        ip = conn.addr[0]
+        hostname = {"198.51.100.1": "first.test", "198.51.100.2": "second.test"}[ip]
+        log.append(("direct", hostname))
+        H.HandshakePeer(conn, response=origin_response(hostname))
+
+    net_ = H.make_net(origin_conn, hosts={"proxy.test": ["203.0.113.9"], "first.test": ["198.51.100.1"], "second.test": ["198.51.100.2"]})
+    net_.listen("203.0.113.9", 3128, ("accept", proxy_conn))
+    opts = {}
+    if variant == "exempt-then-proxied":
+        first_url, second_url = "ws://first.test/", "ws://second.test/"
+        opts.update(http_proxy_host="proxy.test", http_proxy_port=3128, http_no_proxy=["first.test"])
+        expect = [("direct", "first.test"), ("proxy", "CONNECT second.test:80 HTTP/1.1")]
+    elif variant == "proxied-then-exempt":
+        first_url, second_url = "ws://first.test/", "ws://second.test/"
+        opts.update(http_proxy_host="proxy.test", http_proxy_port=3128, http_no_proxy=["second.test"])
+        expect = [("proxy", "CONNECT first.test:80 HTTP/1.1"), ("direct", "second.test")]
+    elif variant == "ws-env-then-wss":
+        first_url, second_url = "ws://first.test/", "wss://second.test/"
+        os.environ["http_proxy"] = "http://proxy.test:3128"
+        expect = [("proxy", "CONNECT first.test:80 HTTP/1.1"), ("direct", "second.test")]
+    else:
+        first_url, second_url = "wss://first.test/", "ws://second.test/"
+        os.environ["https_proxy"] = "http://proxy.test:3128"
+        expect = [("proxy", "CONNECT first.test:443 HTTP/1.1"), ("direct", "second.test")]
+    exc = None
+    try:
+        w = W.create_connection(first_url, timeout=2, **opts)
+        w.shutdown()
+    except Exception as e:  # noqa
+        exc = e
+    finally:
+        H.scrub_env()
+    res.count("tunnel_cases")
+    res.count("redirect_hop_cases")
+    res.case(("redirect-hops", variant), nontrivial=True)
+    case = {"variant": variant, "routes": log}
+    if exc is not None:
+        res.violation("redirect-hop-failed", f"{variant}: {type(exc).__name__}: {exc}; routes {log}", case, variant=variant)
+    elif log != expect:
+        res.violation("redirect-hop-route", f"{variant}: hops went {log}, expected {expect}", case, variant=variant)
